@@ -157,6 +157,7 @@ where
                 //
                 // The constraint is not dropped until all variables converge into numbers.
                 Ok(state
+                    .with_constraint(self.clone())
                     .process_domain(
                         &wwalk,
                         Rc::new(FiniteDomain::from(
@@ -176,8 +177,7 @@ where
                             wmin.checked_div(umax).unwrap_or(vmin)
                                 ..=wmax.checked_div(umin).unwrap_or(vmax),
                         )),
-                    )?
-                    .with_constraint(self))
+                    )?)
             }
             // If all operators do not yet have domains, then keep the constraint until it can
             // be used to constrain some domains.
